@@ -351,7 +351,7 @@ func procMode(seed uint64, rounds int) {
 			_ = syscall.Kill(p, syscall.SIGKILL)
 		}
 	}
-	forcedShutdownRound(rd, dir, seed)
+	forcedShutdownRound(rd, dir, seed, seed%2 == 1)
 	// the bystander is still running and complete; cancel it at the end
 	bj, _ := a.Detail(byID)
 	emit(map[string]interface{}{"kind": "bystander", "completed": bj != nil && bj.Completed, "procs": len(procsWithMark(byMark)), "expected": byCount,
@@ -381,7 +381,7 @@ func procChild(lines []string, settleMs int) {
 // forcedShutdownRound: a job ended by a forced shutdown (the application's context ends: SIGTERM). An earlier job of the same
 // pipeline has completed normally; the running job's tree contains an interrupt-ignoring detached child. When the application
 // has returned nothing of the job may be alive, within the kill timeout plus latency.
-func forcedShutdownRound(rd *renderer, dir string, seed uint64) {
+func forcedShutdownRound(rd *renderer, dir string, seed uint64, trapExit bool) {
 	defs := map[string]PipeDef{
 		"tree": {Concurrency: 2, Tasks: map[string]TaskDef{"t": {Script: []string{"VERIF_MARK={{.mark}} bash {{.file}}"}}}},
 	}
@@ -396,9 +396,13 @@ func forcedShutdownRound(rd *renderer, dir string, seed uint64) {
 	// to kill the rest of the group itself
 	tree := &Node{Kind: "par", Children: []*Node{{Kind: "sleep", IgnoreInt: true, Detach: true}}}
 	file := filepath.Join(dir, "forced.sh")
-	_ = os.WriteFile(file, []byte(rd.render(tree)+"\n"), 0755)
-	mark := fmt.Sprintf("f%d_%d", os.Getpid(), seed)
-	rec := map[string]interface{}{"kind": "proc", "round": -1, "pipeline": "forced_shutdown", "tree": tree, "mark": mark, "script": rd.render(tree)}
+	content := rd.render(tree) + "\n"
+	if trapExit {
+		content = "trap 'exit 0' INT\n" + content // the leader handles the interrupt and exits normally
+	}
+	_ = os.WriteFile(file, []byte(content), 0755)
+	mark := fmt.Sprintf("f%d_%d_%v", os.Getpid(), seed, trapExit)
+	rec := map[string]interface{}{"kind": "proc", "round": -1, "pipeline": "forced_shutdown", "tree": tree, "mark": mark, "script": content, "trap_exit": trapExit}
 	id1, _, _ := a.Schedule("tree", map[string]interface{}{"mark": mark + "Q", "file": quick})
 	a.WaitDone(id1, 10*time.Second)
 	id2, st, msg := a.Schedule("tree", map[string]interface{}{"mark": mark, "file": file})
